@@ -30,6 +30,7 @@ func ctlStream(c *Ctx) []*e1.Program {
 	q := c.Rep.QuarantinedFeatures()
 	progs := append(cases.Ctl(), cases.Accept()...)
 	progs = append(progs, cases.Range()...)
+	progs = append(progs, cases.OptGen()...)
 	nodes, capN, nrand := 3, 1500, 400
 	if c.Thorough() {
 		nodes, capN, nrand = 5, 20000, 5000
@@ -92,6 +93,7 @@ func C02(c *Ctx) {
 	q := c.Rep.QuarantinedFeatures()
 	progs := append(cases.Fx(), cases.Ctl()...)
 	progs = append(progs, cases.Accept()...)
+	progs = append(progs, cases.OptGen()...)
 	nodes, capN, nrand := 3, 1500, 500
 	if c.Thorough() {
 		nodes, capN, nrand = 4, 8000, 6000
@@ -169,7 +171,7 @@ func C07(c *Ctx) {
 
 // C03 — locals and lexical scoping survive suspension.
 func C03(c *Ctx) {
-	progs := cases.Scope()
+	progs := append(cases.Scope(), cases.OptGen()...)
 	n := 700
 	if c.Thorough() {
 		n = 8000
@@ -264,7 +266,12 @@ func C18(c *Ctx) {
 // C12 — unsupported constructs are rejected or preserved, never silently mistranslated.
 func C12(c *Ctx) {
 	progs := cases.Reject()
-	c.Rep.Rule = "supported programs with ONE unsupported construct (goto, labels, labelled break/continue, select, defer, fallthrough out of / into a yielding case, range over func / pointer-to-array / type parameter, yield in an if initialiser, go/defer Yield, wrong result signatures, range over an iterator without variable) injected at 5 statement positions, one compiler invocation per case; outcome classes: rejected with a non-empty diagnostic / output does not build / trace equal to the reference coroutine (the construct simply executes natively there) are fine; a divergent trace or a surviving Yield stub call (observed by the trap overlay of co.go) is a violation; negative controls put the construct into a nested non-generator closure, where it must be accepted and equivalent. distinct = case x tape."
+	ninj := 200
+	if c.Thorough() {
+		ninj = 1400
+	}
+	progs = append(progs, genr.Inject(ninj, c.Seed, c.Rep.QuarantinedFeatures())...)
+	c.Rep.Rule = "PRNG control-flow programs with ONE unsupported construct (13 constructs, each in variants with break / continue / yield inside, or a yield in the initialiser of an if / else-if arm) injected at a PRNG-chosen statement position, and directed: supported programs with ONE unsupported construct (goto, labels, labelled break/continue, select, defer, fallthrough out of / into a yielding case, range over func / pointer-to-array / type parameter, yield in an if initialiser, go/defer Yield, wrong result signatures, range over an iterator without variable) injected at 5 statement positions, one compiler invocation per case; outcome classes: rejected with a non-empty diagnostic / output does not build / trace equal to the reference coroutine (the construct simply executes natively there) are fine; a divergent trace or a surviving Yield stub call (observed by the trap overlay of co.go) is a violation; negative controls put the construct into a nested non-generator closure, where it must be accepted and equivalent. distinct = case x tape."
 	classes := map[string]int{}
 	RunE1(c, E1Spec{
 		Programs:    progs,
